@@ -41,9 +41,36 @@ type Failure struct {
 }
 
 type fnInfo struct {
-	name string
-	intr intrinsicFunc
-	skip bool
+	name  string
+	intr  intrinsicFunc
+	skip  bool
+	slots map[ssa.Value]int // value numbering of the function's parameters, free variables and instructions
+}
+
+func (fi *fnInfo) numberValues(fn *ssa.Function) {
+	fi.slots = map[ssa.Value]int{}
+	for _, p := range fn.Params {
+		fi.slots[p] = len(fi.slots)
+	}
+	for _, fv := range fn.FreeVars {
+		fi.slots[fv] = len(fi.slots)
+	}
+	for _, b := range fn.Blocks {
+		for _, in := range b.Instrs {
+			if v, ok := in.(ssa.Value); ok {
+				fi.slots[v] = len(fi.slots)
+			}
+		}
+	}
+	if fn.Recover != nil {
+		for _, in := range fn.Recover.Instrs {
+			if v, ok := in.(ssa.Value); ok {
+				if _, dup := fi.slots[v]; !dup {
+					fi.slots[v] = len(fi.slots)
+				}
+			}
+		}
+	}
 }
 
 type Engine struct {
@@ -236,7 +263,9 @@ type deferred struct {
 type frame struct {
 	e         *Engine
 	fn        *ssa.Function
-	env       map[ssa.Value]value
+	fi        *fnInfo
+	env       []value
+	set       []bool
 	defers    []deferred
 	prev      *ssa.BasicBlock
 	panicking *targetPanic
@@ -254,11 +283,17 @@ func (fr *frame) get(v ssa.Value) value {
 	case *ssa.Global:
 		return fr.e.global(v)
 	}
-	r, ok := fr.env[v]
-	if !ok {
+	i, ok := fr.fi.slots[v]
+	if !ok || !fr.set[i] {
 		panic(fmt.Sprintf("no value for %s in %s", v.Name(), fr.fn))
 	}
-	return r
+	return fr.env[i]
+}
+
+func (fr *frame) put(v ssa.Value, x value) {
+	i := fr.fi.slots[v]
+	fr.env[i] = x
+	fr.set[i] = true
 }
 
 func (e *Engine) global(v *ssa.Global) *value {
@@ -392,12 +427,15 @@ func (e *Engine) callFn(fn *ssa.Function, args []value, env []value, deferOf *fr
 		e.depth--
 		e.abort("TRUNCATED call depth %d exceeded in %s", e.bud.CallDepth, fi.name)
 	}
-	fr := &frame{e: e, fn: fn, env: make(map[ssa.Value]value, 16), deferOf: deferOf}
+	if fi.slots == nil {
+		fi.numberValues(fn)
+	}
+	fr := &frame{e: e, fn: fn, fi: fi, env: make([]value, len(fi.slots)), set: make([]bool, len(fi.slots)), deferOf: deferOf}
 	for i, p := range fn.Params {
-		fr.env[p] = args[i]
+		fr.put(p, args[i])
 	}
 	for i, fv := range fn.FreeVars {
-		fr.env[fv] = env[i]
+		fr.put(fv, env[i])
 	}
 	defer func() { e.depth-- }()
 	return fr.run()
@@ -471,6 +509,31 @@ func (fr *frame) exec(b *ssa.BasicBlock) value {
 	e := fr.e
 	for {
 		var next *ssa.BasicBlock
+		// parallel evaluation of the block's phi nodes
+		if len(b.Instrs) > 0 {
+			if _, ok := b.Instrs[0].(*ssa.Phi); ok {
+				idx := -1
+				for i, p := range b.Preds {
+					if p == fr.prev {
+						idx = i
+						break
+					}
+				}
+				var vals []value
+				var phis []*ssa.Phi
+				for _, in := range b.Instrs {
+					phi, ok := in.(*ssa.Phi)
+					if !ok {
+						break
+					}
+					phis = append(phis, phi)
+					vals = append(vals, fr.get(phi.Edges[idx]))
+				}
+				for i, phi := range phis {
+					fr.put(phi, vals[i])
+				}
+			}
+		}
 		for _, in := range b.Instrs {
 			e.instrs++
 			if e.instrs > e.bud.Instrs {
@@ -502,12 +565,7 @@ func (fr *frame) exec(b *ssa.BasicBlock) value {
 			case *ssa.Panic:
 				panic(targetPanic{v: fr.get(in.X)})
 			case *ssa.Phi:
-				for i, p := range b.Preds {
-					if p == fr.prev {
-						fr.env[in] = fr.get(in.Edges[i])
-						break
-					}
-				}
+				// phis of a block are evaluated in parallel: handled as a batch at block entry
 			default:
 				fr.step(in)
 			}
@@ -523,7 +581,7 @@ func (fr *frame) step(in ssa.Instruction) {
 	case *ssa.DebugRef:
 	case *ssa.Alloc:
 		v := e.zero(in.Type().(*types.Pointer).Elem())
-		fr.env[in] = &v
+		fr.put(in, &v)
 	case *ssa.Store:
 		switch p := fr.get(in.Addr).(type) {
 		case *value:
@@ -535,24 +593,24 @@ func (fr *frame) step(in ssa.Instruction) {
 			e.abort("UNSUPPORTED store through %T", p)
 		}
 	case *ssa.UnOp:
-		fr.env[in] = fr.unop(in)
+		fr.put(in, fr.unop(in))
 	case *ssa.BinOp:
-		fr.env[in] = e.binop(in.Op, in.X.Type(), fr.get(in.X), fr.get(in.Y))
+		fr.put(in, e.binop(in.Op, in.X.Type(), fr.get(in.X), fr.get(in.Y)))
 	case *ssa.FieldAddr:
 		p := fr.get(in.X).(*value)
 		if p == nil {
 			panic(rtPanic("invalid memory address or nil pointer dereference"))
 		}
-		fr.env[in] = &(*p).(Struct)[in.Field]
+		fr.put(in, &(*p).(Struct)[in.Field])
 	case *ssa.Field:
-		fr.env[in] = copyVal(fr.get(in.X).(Struct)[in.Field])
+		fr.put(in, copyVal(fr.get(in.X).(Struct)[in.Field]))
 	case *ssa.IndexAddr:
 		x := fr.get(in.X)
 		idx := fr.get(in.Index)
 		switch x := x.(type) {
 		case Slice:
 			i := e.boundsIndex(idx, int64(x.len))
-			fr.env[in] = &x.arr[x.off+int(i)]
+			fr.put(in, &x.arr[x.off+int(i)])
 		case *value:
 			if x == nil {
 				panic(rtPanic("invalid memory address or nil pointer dereference"))
@@ -560,10 +618,10 @@ func (fr *frame) step(in ssa.Instruction) {
 			arr := (*x).(Array)
 			if sy, ok := idx.(*Sym); ok && !sy.isConst() && sy.bits <= 16 && len(arr) >= 1<<uint(sy.bits) {
 				// index cannot be out of range (e.g. a byte into a [256]T table): keep it symbolic
-				fr.env[in] = SymPtr{arr, sy, sy.bits}
+				fr.put(in, SymPtr{arr, sy, sy.bits})
 			} else {
 				i := e.boundsIndex(idx, int64(len(arr)))
-				fr.env[in] = &arr[i]
+				fr.put(in, &arr[i])
 			}
 		default:
 			panic(fmt.Sprintf("IndexAddr on %T", x))
@@ -572,18 +630,18 @@ func (fr *frame) step(in ssa.Instruction) {
 		switch x := fr.get(in.X).(type) {
 		case Array:
 			i := e.boundsIndex(fr.get(in.Index), int64(len(x)))
-			fr.env[in] = copyVal(x[i])
+			fr.put(in, copyVal(x[i]))
 		case string:
 			i := e.boundsIndex(fr.get(in.Index), int64(len(x)))
-			fr.env[in] = int64(x[i])
+			fr.put(in, int64(x[i]))
 		case SymStr:
 			i := e.boundsIndex(fr.get(in.Index), int64(len(x.b)))
-			fr.env[in] = x.b[i]
+			fr.put(in, x.b[i])
 		default:
 			panic(fmt.Sprintf("Index on %T", x))
 		}
 	case *ssa.Slice:
-		fr.env[in] = fr.slice(in)
+		fr.put(in, fr.slice(in))
 	case *ssa.MakeSlice:
 		n := fr.get(in.Len)
 		c := fr.get(in.Cap)
@@ -598,19 +656,19 @@ func (fr *frame) step(in ssa.Instruction) {
 			panic(rtPanic("makeslice: cap out of range"))
 		}
 		et := in.Type().Underlying().(*types.Slice).Elem()
-		fr.env[in] = e.makeSlice(et, ln, cp)
+		fr.put(in, e.makeSlice(et, ln, cp))
 	case *ssa.MakeInterface:
-		fr.env[in] = Iface{in.X.Type(), copyVal(fr.get(in.X))}
+		fr.put(in, Iface{in.X.Type(), copyVal(fr.get(in.X))})
 	case *ssa.ChangeInterface:
-		fr.env[in] = fr.get(in.X)
+		fr.put(in, fr.get(in.X))
 	case *ssa.ChangeType:
-		fr.env[in] = fr.get(in.X)
+		fr.put(in, fr.get(in.X))
 	case *ssa.TypeAssert:
-		fr.env[in] = fr.typeAssert(in)
+		fr.put(in, fr.typeAssert(in))
 	case *ssa.Extract:
-		fr.env[in] = fr.get(in.Tuple).(Tuple)[in.Index]
+		fr.put(in, fr.get(in.Tuple).(Tuple)[in.Index])
 	case *ssa.Convert:
-		fr.env[in] = fr.convert(in)
+		fr.put(in, fr.convert(in))
 	case *ssa.MultiConvert:
 		e.abort("UNSUPPORTED MultiConvert")
 	case *ssa.SliceToArrayPointer:
@@ -620,9 +678,9 @@ func (fr *frame) step(in ssa.Instruction) {
 		for _, b := range in.Bindings {
 			c.env = append(c.env, fr.get(b))
 		}
-		fr.env[in] = c
+		fr.put(in, c)
 	case *ssa.Call:
-		fr.env[in] = fr.doCall(in.Common())
+		fr.put(in, fr.doCall(in.Common()))
 	case *ssa.Defer:
 		cc := in.Common()
 		fnv, args := fr.prepCall(cc)
@@ -630,7 +688,7 @@ func (fr *frame) step(in ssa.Instruction) {
 	case *ssa.RunDefers:
 		fr.runDefers()
 	case *ssa.Select:
-		fr.env[in] = fr.selectInstr(in)
+		fr.put(in, fr.selectInstr(in))
 	case *ssa.Go:
 		cc := in.Common()
 		fnv, args := fr.prepCall(cc)
@@ -640,11 +698,11 @@ func (fr *frame) step(in ssa.Instruction) {
 		e.spawn(fnv, args)
 	case *ssa.MakeChan:
 		sz := e.concretize(e.widen(fr.get(in.Size), in.Size.Type()), 64)
-		fr.env[in] = &Chan{cap: int(sz), elem: in.Type().Underlying().(*types.Chan).Elem()}
+		fr.put(in, &Chan{cap: int(sz), elem: in.Type().Underlying().(*types.Chan).Elem()})
 	case *ssa.Send:
 		e.chanSend(fr.get(in.Chan).(*Chan), fr.get(in.X))
 	case *ssa.MakeMap:
-		fr.env[in] = &Map{m: map[interface{}]value{}}
+		fr.put(in, &Map{m: map[interface{}]value{}})
 	case *ssa.MapUpdate:
 		m := fr.get(in.Map).(*Map)
 		if m == nil {
@@ -667,16 +725,16 @@ func (fr *frame) step(in ssa.Instruction) {
 				v = e.zero(in.X.Type().Underlying().(*types.Map).Elem())
 			}
 			if in.CommaOk {
-				fr.env[in] = Tuple{copyVal(v), ok}
+				fr.put(in, Tuple{copyVal(v), ok})
 			} else {
-				fr.env[in] = copyVal(v)
+				fr.put(in, copyVal(v))
 			}
 		case string:
 			i := e.boundsIndex(fr.get(in.Index), int64(len(x)))
-			fr.env[in] = int64(x[i])
+			fr.put(in, int64(x[i]))
 		case SymStr:
 			i := e.boundsIndex(fr.get(in.Index), int64(len(x.b)))
-			fr.env[in] = x.b[i]
+			fr.put(in, x.b[i])
 		default:
 			e.abort("UNSUPPORTED lookup on %T", x)
 		}
@@ -687,19 +745,19 @@ func (fr *frame) step(in ssa.Instruction) {
 			if x != nil {
 				it.keys = append([]interface{}{}, x.order...)
 			}
-			fr.env[in] = it
+			fr.put(in, it)
 		case string:
 			b, _ := strBytes(x)
-			fr.env[in] = &mapIter{isStr: true, str: b}
+			fr.put(in, &mapIter{isStr: true, str: b})
 		case SymStr:
-			fr.env[in] = &mapIter{isStr: true, str: x.b}
+			fr.put(in, &mapIter{isStr: true, str: x.b})
 		default:
 			e.abort("UNSUPPORTED range over %T", x)
 		}
 	case *ssa.Next:
 		it := fr.get(in.Iter).(*mapIter)
 		if it.isStr {
-			fr.env[in] = e.nextRune(it)
+			fr.put(in, e.nextRune(it))
 			break
 		}
 		var res value = Tuple{false, nil, nil}
@@ -711,7 +769,7 @@ func (fr *frame) step(in ssa.Instruction) {
 				break
 			}
 		}
-		fr.env[in] = res
+		fr.put(in, res)
 	default:
 		e.abort("UNSUPPORTED instr %T %v", in, in)
 	}
